@@ -118,7 +118,7 @@ def read_raw(text):
     return net
 
 
-def write_raw(net, cw=1, cz=1, windv2=1.0, ixfr=True, nomv=None):
+def write_raw(net, cw=1, cz=1, windv2=1.0, ixfr=True, nomv=None, load_split=None, vm=1.0):
     """Write a RAW v33 text of a net (system-base p.u. for series data). Transformers = branches with tap != 1 or phi != 0."""
     mva = net['mva']
     kv = {b['idx']: b['Vn'] for b in net['buses']}
@@ -128,9 +128,17 @@ def write_raw(net, cw=1, cz=1, windv2=1.0, ixfr=True, nomv=None):
     ref_angle = {g['bus']: g.get('a0', 0.0) for g in net['slacks'] if g['u']}
     for b in net['buses']:
         ty = 3 if b['idx'] in slack_bus else (2 if b['idx'] in pv_bus else 1)
-        out.append("%d,'B%-6d',%.17g,%d,1,1,1,%.17g,%.17g" % (b['idx'], b['idx'], b['Vn'], ty, 1.0, ref_angle.get(b['idx'], 0.0) / DEG))
+        out.append("%d,'B%-6d',%.17g,%d,1,1,1,%.17g,%.17g" % (b['idx'], b['idx'], b['Vn'], ty, vm, ref_angle.get(b['idx'], 0.0) / DEG))
     out.append('0 / END OF BUS DATA, BEGIN LOAD DATA')
     for k, d in enumerate(net['pqs']):
+        if load_split:
+            # the same load given as constant-power, constant-current and constant-admittance parts that total p0 + j q0 at
+            # the bus voltage VM stated in the bus record: P = PL + IP*v + YP*v^2, Q = QL + IQ*v - YQ*v^2 (YQ < 0 = inductive)
+            a, b_, c_ = load_split
+            P, Q = d['p0'] * mva, d['q0'] * mva
+            out.append("%d,'%d',%d,1,1,%.17g,%.17g,%.17g,%.17g,%.17g,%.17g,1"
+                       % (d['bus'], k % 90 + 1, d['u'], a * P, a * Q, b_ * P / vm, b_ * Q / vm, c_ * P / vm ** 2, -c_ * Q / vm ** 2))
+            continue
         out.append("%d,'%d',%d,1,1,%.17g,%.17g,0.0,0.0,0.0,0.0,1" % (d['bus'], k % 90 + 1, d['u'], d['p0'] * mva, d['q0'] * mva))
     out.append('0 / END OF LOAD DATA, BEGIN FIXED SHUNT DATA')
     for k, d in enumerate(net['shunts']):
